@@ -15,15 +15,15 @@ import (
 // Faults is the fault plan of one simulated run of the tool. Offsets are byte
 // counts; -1 (or an empty string) disables a fault.
 type Faults struct {
-	InChunkSeed  uint64 `json:"in_chunk_seed,omitempty"`  // != 0: grammar reads return short counts drawn from this seed
-	InReadErrAt  int    `json:"in_read_err_at"`           // grammar read fails once this many bytes were delivered
-	InCloseErr   bool   `json:"in_close_err,omitempty"`   // closing the grammar source fails
-	InOpenErr    string `json:"in_open_err,omitempty"`    // opening the grammar file fails: ENOENT, EACCES, EISDIR
-	OutCreateErr string `json:"out_create_err,omitempty"` // creating the -o file fails: EACCES, ENOSPC, EISDIR
-	OutWriteErrAt int   `json:"out_write_err_at"`         // output write fails once this many bytes were accepted
-	OutWriteErr  string `json:"out_write_err,omitempty"`  // ENOSPC (default), EIO, EPIPE
-	OutCloseErr  bool   `json:"out_close_err,omitempty"`  // closing the output fails
-	ErrWriteErrAt int   `json:"err_write_err_at"`         // stderr write fails once this many bytes were accepted
+	InChunkSeed   uint64 `json:"in_chunk_seed,omitempty"`  // != 0: grammar reads return short counts drawn from this seed
+	InReadErrAt   int    `json:"in_read_err_at"`           // grammar read fails once this many bytes were delivered
+	InCloseErr    bool   `json:"in_close_err,omitempty"`   // closing the grammar source fails
+	InOpenErr     string `json:"in_open_err,omitempty"`    // opening the grammar file fails: ENOENT, EACCES, EISDIR
+	OutCreateErr  string `json:"out_create_err,omitempty"` // creating the -o file fails: EACCES, ENOSPC, EISDIR
+	OutWriteErrAt int    `json:"out_write_err_at"`         // output write fails once this many bytes were accepted
+	OutWriteErr   string `json:"out_write_err,omitempty"`  // ENOSPC (default), EIO, EPIPE
+	OutCloseErr   bool   `json:"out_close_err,omitempty"`  // closing the output fails
+	ErrWriteErrAt int    `json:"err_write_err_at"`         // stderr write fails once this many bytes were accepted
 }
 
 // NoFaults is the empty plan.
